@@ -98,6 +98,7 @@ type HostSpec struct {
 	RedirectScheme string `json:"redirect_scheme,omitempty"` // "" natural scheme of the target
 	Upload         int    `json:"upload"`                    // upload sessions are handed to this host (-1 none)
 	LocStyle       int    `json:"loc_style,omitempty"`       // regmodel LocStyle when Upload < 0 (0..3)
+	LocScheme      string `json:"loc_scheme,omitempty"`      // "" | http | https: upload POST answers an absolute Location on this host with that scheme
 	LinkTo         int    `json:"link_to"`                   // second page of the tag list lives on this host (-1 none)
 	Referrers      bool   `json:"referrers,omitempty"`       // referrers API
 	TagPage        int    `json:"tag_page,omitempty"`
